@@ -23,7 +23,18 @@ Besides the anchored items the INVENTORY of each file is compared: the list of
 enums (with their derive attributes) outside `#[cfg(test)]` modules.  A new
 trait implementation (a hand-written `PartialEq for Curve`, `Hash for
 VariableAccess`) or a second function of the same name under `cfg` changes the
-inventory without changing any anchored body.
+inventory without changing any anchored body.  The `use` declarations of each
+file (with the attributes, inner `#![...]` ones included, that precede them) are
+inventory rows too: a changed import (another `Curve`, `HashSet`, `BigInt`) or a
+new crate-level attribute is seen.
+
+Second audit: (1) `enum Curve` pins `#[default]` to its first variant (the
+template no longer lets it sit on any variant; the caller checks that the first
+variant is Bn254); (2) the report builder of each guard block of the non-strict
+pass is bound ($id:builder) and the caller pins it to `build_<literal in lower
+case>`; (3) two items of the CLI are anchored (read_cli): the `curve` field of
+`struct Cli` in cli/src/main.rs with its whole `#[clap(...)]` attribute (the
+`default_value`), and the const `DEFAULT_CURVE` of program_analysis/src/config.rs.
 """
 import re
 
@@ -240,6 +251,11 @@ def scan_items(toks):
                 kind, name, x = header_of(hdr)
                 if kind in ("const", "static", "struct", "fn", "type"):
                     out.append((container, joined(hdr[:x + 2]), kind, name, start + x, i + 1))
+                elif kind is None and any(k2 == "id" and v2 == "use" and not _inside_attr(hdr, y) for y, (k2, v2) in enumerate(hdr)):
+                    # a `use` declaration (with the attributes - inner `#![...]` ones included - that precede it):
+                    # part of the inventory, so that a changed import (another `Curve`, `HashSet`, `BigInt` ...)
+                    # or a new crate-level attribute is seen
+                    out.append((container, joined(hdr), "use", joined(hdr), start, i + 1))
                 start = i + 1
                 i += 1
             elif k == "op" and v == "{":
@@ -570,7 +586,8 @@ struct ConstraintData {
 # constants.rs ---------------------------------------------------------------
 T_ENUM_CURVE = r'''
 enum Curve {
-    $[variants $(dflt #[default] $) $id:variant , $]
+    #[default] $id:first ,
+    $[variants $id:variant , $]
 }
 '''
 T_CURVE_PRIME = r'''
@@ -659,6 +676,14 @@ ANCHORS = {
 # The inventory of each file outside #[cfg(test)] modules: (container, header).
 INVENTORY = {
     "bn254": [
+        ("", "use std :: collections :: HashSet"),
+        ("", "use log :: debug"),
+        ("", "use program_structure :: cfg :: Cfg"),
+        ("", "use program_structure :: constants :: Curve"),
+        ("", "use program_structure :: ir :: { AssignOp , Expression , Meta , Statement }"),
+        ("", "use program_structure :: report :: { Report , ReportCollection }"),
+        ("", "use program_structure :: report_code :: ReportCode"),
+        ("", "use program_structure :: file_definition :: { FileLocation , FileID }"),
         ("", "const PROBLEMATIC_GOLDILOCK_TEMPLATES"),
         ("", "const PROBLEMATIC_BLS12_381_TEMPLATES"),
         ("", "pub struct Bn254SpecificCircuitWarning"),
@@ -669,6 +694,15 @@ INVENTORY = {
         ("", "fn build_report"),
     ],
     "nonstrict": [
+        ("", "use log :: debug"),
+        ("", "use num_bigint :: BigInt"),
+        ("", "use program_structure :: cfg :: { Cfg , DefinitionType }"),
+        ("", "use program_structure :: constants :: Curve"),
+        ("", "use program_structure :: report_code :: ReportCode"),
+        ("", "use program_structure :: report :: { Report , ReportCollection }"),
+        ("", "use program_structure :: file_definition :: { FileID , FileLocation }"),
+        ("", "use program_structure :: ir :: value_meta :: { ValueMeta , ValueReduction }"),
+        ("", "use program_structure :: ir :: *"),
         ("", "pub enum NonStrictBinaryConversionWarning"),
         ("", "impl NonStrictBinaryConversionWarning"),
         ("impl NonStrictBinaryConversionWarning", "pub fn into_report"),
@@ -678,6 +712,15 @@ INVENTORY = {
         ("", "fn build_bits2num"),
     ],
     "lessthan": [
+        ("", "use std :: collections :: HashMap"),
+        ("", "use std :: fmt"),
+        ("", "use log :: { debug , trace }"),
+        ("", "use num_bigint :: BigInt"),
+        ("", "use program_structure :: cfg :: Cfg"),
+        ("", "use program_structure :: ir :: value_meta :: { ValueMeta , ValueReduction }"),
+        ("", "use program_structure :: report_code :: ReportCode"),
+        ("", "use program_structure :: report :: { Report , ReportCollection }"),
+        ("", "use program_structure :: ir :: *"),
         ("", "pub struct UnconstrainedLessThanWarning"),
         ("", "impl UnconstrainedLessThanWarning"),
         ("impl UnconstrainedLessThanWarning", "fn primary_meta"),
@@ -701,6 +744,10 @@ INVENTORY = {
         ("", "# [ must_use ] fn vec_to_display"),
     ],
     "constants": [
+        ("", "use anyhow :: { anyhow , Error }"),
+        ("", "use num_bigint :: BigInt"),
+        ("", "use std :: fmt"),
+        ("", "use std :: str :: FromStr"),
         ("", "# [ derive ( Default , Clone , PartialEq , Eq ) ] pub enum Curve"),
         ("", "impl fmt :: Display for Curve"),
         ("impl fmt :: Display for Curve", "fn fmt"),
@@ -719,6 +766,101 @@ INVENTORY = {
         ("impl UsefulConstants", "pub fn prime_size"),
     ],
 }
+
+
+# cli/src/main.rs + program_analysis/src/config.rs ---------------------------------
+# the `curve` field of `struct Cli` with its attribute (doc comments are not
+# tokens); the default is either the const of config.rs or a string literal
+T_CLI_CURVE_FIELD = r'''
+#[clap(short = 'c', long = "curve", name = "NAME",
+       default_value = $(viaconst config::DEFAULT_CURVE $) $(lit $str:v $))]
+curve: Curve
+'''
+T_CONFIG_DEFAULT_CURVE = r'''
+const DEFAULT_CURVE: &str = $str:v;
+'''
+CLI_LABELS = ("cli::Cli::curve", "config::DEFAULT_CURVE")
+
+
+def _fields(toks, lo, hi):
+    """The token ranges of the fields of a braced struct toks[lo:hi] (split at the
+    commas of nesting depth 0 inside the braces)."""
+    i = lo
+    while i < hi and toks[i] != ("op", "{"):
+        i += 1
+    end = _close(toks, i)
+    out, start, j = [], i + 1, i + 1
+    while j < end:
+        k, v = toks[j]
+        if k == "op" and v in ("(", "[", "{"):
+            j = _close(toks, j) + 1
+            continue
+        if k == "op" and v == ",":
+            out.append((start, j))
+            start = j + 1
+        j += 1
+    if start < end:
+        out.append((start, end))
+    return out
+
+
+def read_cli(main_text, config_text):
+    """Strict reading of the two CLI items the default curve comes from.
+    -> {"shape", "env", "problems", "default_curve"}; default_curve = the string
+    the parser of `--curve` receives when the option is absent ("" = not recognised)."""
+    shape, envs, problems = [], {}, []
+    default = ""
+    # --- struct Cli, field `curve` ------------------------------------------------
+    label = CLI_LABELS[0]
+    env = None
+    try:
+        toks = tokens(main_text)
+        structs = [(lo, hi) for c, h, k, nm, lo, hi in scan_items(toks) if (c, k, nm) == ("", "struct", "Cli")]
+        if len(structs) != 1:
+            problems.append("%s: %d items `struct Cli` in cli/src/main.rs, expected one" % (label, len(structs)))
+        else:
+            fl = [(a, b) for a, b in _fields(toks, *structs[0]) if b - a >= 3 and toks[b - 3:b - 1] == [("id", "curve"), ("op", ":")]]
+            typed = [(a, b) for a, b in _fields(toks, *structs[0]) if toks[b - 1] == ("id", "Curve")]
+            if len(fl) != 1 or typed != fl:
+                problems.append("%s: struct Cli has %d fields named `curve` and %d of type Curve, expected the same single field"
+                                % (label, len(fl), len(typed)))
+            else:
+                env, why = match_template(T_CLI_CURVE_FIELD, toks[fl[0][0]:fl[0][1]])
+                if env is None:
+                    problems.append("%s does not have the anchored shape: %s" % (label, why))
+                elif len(env["viaconst"]) + len(env["lit"]) != 1:
+                    problems.append("%s: default_value is neither config::DEFAULT_CURVE nor one string literal" % label)
+                    env = None
+    except (ValueError, IndexError) as e:
+        problems.append("%s: cli/src/main.rs could not be cut into items: %r" % (label, e))
+        env = None
+    shape.append((label, env is not None))
+    if env is not None:
+        envs[label] = env
+    # --- const DEFAULT_CURVE -------------------------------------------------------
+    label = CLI_LABELS[1]
+    cenv = None
+    try:
+        toks = tokens(config_text)
+        found = [(lo, hi) for c, h, k, nm, lo, hi in scan_items(toks) if (c, k, nm) == ("", "const", "DEFAULT_CURVE")]
+        if len(found) != 1:
+            problems.append("%s: %d items `const DEFAULT_CURVE` in program_analysis/src/config.rs, expected one" % (label, len(found)))
+        else:
+            cenv, why = match_template(T_CONFIG_DEFAULT_CURVE, toks[found[0][0]:found[0][1]])
+            if cenv is None:
+                problems.append("%s does not have the anchored shape: %s" % (label, why))
+    except (ValueError, IndexError) as e:
+        problems.append("%s: program_analysis/src/config.rs could not be cut into items: %r" % (label, e))
+        cenv = None
+    shape.append((label, cenv is not None))
+    if cenv is not None:
+        envs[label] = cenv
+    if env is not None:
+        if env["lit"]:
+            default = env["lit"][0]["v"]
+        elif cenv is not None:
+            default = cenv["v"]
+    return {"shape": shape, "env": envs, "problems": problems, "default_curve": default}
 
 
 def read_file(key, text):
